@@ -59,9 +59,60 @@ def run_one(schema: dict, rng, exercise: int) -> dict:
             # reads rooted at a global are judged exactly (holder object + attribute) by check_closed on the world model;
             # the name inclusion covers the reads rooted at parameters / locals (cls, self, value)
             rg = c17_run.real_globals(rec)
-            reads += [("*", a) for r, a in c17_run.holder_attr_reads(rec) if r not in rg]
+            # (an attribute compiled on demand - `if '<attr>' not in x.__dict__: CodeBuilder(..)...` right before the read - is
+            #  installed by that call: stated exception, like the lazy stub)
+            reads += [("*", a) for r, a in c17_run.holder_attr_reads(rec)
+                      if r not in rg and not (f"'{a}' not in " in rec["code"] and "CodeBuilder(" in rec["code"])]
         sets += [("*", a) for r, a in c17_run.holder_attr_sets(rec)]
+    # rendering: independent reading of every field annotation (Render.rty) + what the real type_name says + whether the
+    # generated error path of a required field contains it
+    render_cases = []
+    contain = {"checked": 0, "missing": []}
+    if d and sr.build_error is None:
+        import dataclasses
+        from harness import c17_render
+        from mashumaro.core.meta.helpers import type_name
+        alltext = "\n".join(rec["code"] for rec in sr.programs)
+        seen_rc = set()
+        for c in list(dict.fromkeys(list(d.get("ROOTS", [])) + [c for c in d.get("CLASSES", []) if isinstance(c, type)])):
+            for fn, t in c17_render.field_types(c):
+                term = c17_render.to_rty(t)
+                if term is None:
+                    continue
+                try:
+                    exp = type_name(t)
+                except Exception:
+                    continue
+                if (term, exp) not in seen_rc and len(render_cases) < 60:
+                    seen_rc.add((term, exp))
+                    render_cases.append([term, exp])
+                # the defaultdict factory is the rendering of the value type pasted as code (unpack.py:1281-1288)
+                import collections as _c
+                import typing as _t
+                if _t.get_origin(t) is _c.defaultdict and len(_t.get_args(t)) == 2 and c in d.get("ROOTS", []):
+                    try:
+                        fexp = type_name(_t.get_args(t)[1])
+                    except Exception:
+                        fexp = None
+                    own_f = [rec["code"] for rec in sr.programs
+                             if f"Argument for {c.__module__}.{c.__qualname__}.__mashumaro_from_" in rec["code"] and "collections.defaultdict(" in rec["code"]]
+                    if fexp is not None and "<locals>" not in fexp:
+                        for code in own_f:
+                            contain["checked"] += 1
+                            if f"collections.defaultdict({fexp}, " not in code:
+                                contain["missing"].append(f"{c.__name__}.{fn}: defaultdict factory {fexp}")
+                fld = next((f for f in dataclasses.fields(c) if f.name == fn), None)
+                if (c in d.get("ROOTS", []) and fld is not None and fld.default is dataclasses.MISSING
+                        and fld.default_factory is dataclasses.MISSING and fld.init):
+                    # the from_dict programs of this very class (they carry its qualified name in the non-dict message)
+                    own = [rec["code"] for rec in sr.programs
+                           if f"Argument for {c.__module__}.{c.__qualname__}.__mashumaro_from_" in rec["code"] and f"MissingField('{fn}'," in rec["code"]]
+                    for code in own:
+                        contain["checked"] += 1
+                        if f"MissingField('{fn}',{exp},cls)" not in code and f"MissingField('{fn}',{c17_run.clean(exp)},cls)" not in code:
+                            contain["missing"].append(f"{c.__name__}.{fn}: {exp}")
     out = {"idx": schema["idx"], "module": schema["module"], "tags": schema["tags"], "defloc": schema["defloc"],
+           "render_cases": render_cases, "render_contain": contain,
            "build_error": (type(sr.build_error).__name__ + ": " + str(sr.build_error)[:200]) if sr.build_error else None,
            "findings": fs, "programs": progs, "calls": sr.calls, "errors_seen": sr.errors_seen, "info": sr.info,
            "attr_reads": sorted(set(reads)), "attr_sets": sorted(set(sets)),
